@@ -1,7 +1,10 @@
-"""C20 (claimed part: mutual format compatibility): every host service call returns what the equipment holds, and a collection
-event triggered while enabled reaches the host exactly once - real GemHostHandler and real GemEquipmentHandler connected by a
-loopback transport that carries the ENCODED bytes of every request and reply. Reaching COMMUNICATING under all startup orders,
-latencies and segmentations and recovery after disable/enable are whole-program properties and are NOT claimed here."""
+"""C20: (a) mutual format compatibility - every host service call returns what the equipment holds, and a collection event triggered
+while enabled reaches the host exactly once - real GemHostHandler and real GemEquipmentHandler connected by a loopback transport
+that carries the ENCODED bytes of every request and reply; (b) `establish_schedules`: both real handlers on a *scheduled* link
+(rigs/net.py) - startup order, connect role, delivery order of the two directions, timer expiries, a link loss and a
+disable/enable cycle are chosen by a symbolic schedule; after any such prefix a fair continuation must bring both sides to
+COMMUNICATING within a bounded number of events, and the data then agrees.  The HSMS/TCP layers below the GEM handlers (byte
+segmentation, Select timing T6/T7) are abstracted to their notifications here: they are the subject of C04/C05/C09."""
 from crosshair.simplestructs import SimpleDict
 
 from engine.chx import fin, pick
@@ -170,6 +173,58 @@ def remote_command(p1: int) -> bool:
     return fin(r.HCACK.get() in (0, 4) and len(seen) == 1 and r2.HCACK.get() not in (0, 4))     # 4 = accepted, finished later
 
 
+def establish_schedules(host_active: bool, c0: int, c1: int, c2: int, c3: int, c4: int, c5: int, c6: int, depth: int,
+                        refuse_h: int, refuse_e: int, start_h: int, start_e: int, dsel: int, fast: bool) -> bool:
+    """
+    pre: 0 <= c0 < 7 and 0 <= c1 < 7 and 0 <= c2 < 7 and 0 <= c3 < 7 and 0 <= c4 < 7 and 0 <= c5 < 7 and 0 <= c6 < 7
+    pre: 0 <= depth <= 7
+    pre: 0 <= refuse_h <= 1 and 0 <= refuse_e <= 1
+    pre: 0 <= start_h < 2**31 and 0 <= start_e < 2**31 and 0 <= dsel <= 1
+    post: _
+    """
+    from rigs import net as N
+    from secsgem.gem.communication_state_machine import CommunicationState
+    # establish-communications delay below the reply timeout (T3 = 45 s) on one side and above it on the other
+    delay_h, delay_e = (10, 100) if dsel == 0 else (100, 10)
+    net = N.Net(host_active, delay_h, delay_e, refuse_h, refuse_e, start_h, start_e, fast)
+    budget = [2, 1, 1]                                  # timer expiries ahead of a pending delivery, link losses, disables
+    k = 0
+    for c in (c0, c1, c2, c3, c4, c5, c6):
+        if k >= depth:
+            if c != 0:
+                return True                             # canonical form: unused schedule entries are 0
+            continue
+        k += 1
+        opts = net.options(budget)
+        if c >= len(opts):
+            return True                                 # not a schedule (index beyond the enabled events)
+        net.do(pick(opts, c), budget)
+    used = net.settle(40)
+    if used is None:
+        return False                                    # stuck or not converging within 40 further events
+    for side in (N.HOST, N.EQ):
+        if not net.communicating(side) or not net.h[side].waitfor_communicating(0):
+            return False
+        # while communication was not established nothing reached a user callback
+        if any(st != CommunicationState.COMMUNICATING for st in net.delivered_app[side]):
+            return False
+    # and the two sides really talk to each other afterwards: request/reply in both directions, one event report
+    hh, eh = net.h
+    r = hh.are_you_there()
+    if r is None or (r.header.stream, r.header.function) != (1, 2):
+        return False
+    r = eh.are_you_there()
+    if r is None or (r.header.stream, r.header.function) != (1, 2):
+        return False
+    _populate(eh, 11, -3, 0, False, False)
+    got = []
+    hh.events.collection_event_received += lambda d: got.append((d["ceid"].get(), [(v["dvid"], v["value"]) for v in d["values"]]))
+    hh.subscribe_collection_event(CE_A, [SV_B, SV_A], 7)
+    eh.trigger_collection_events([CE_A])
+    net.settle(10)
+    return fin(got == [(CE_A, [(SV_B, -3), (SV_A, 11)])] and net.communicating(N.HOST) and net.communicating(N.EQ))
+
+
 OBLIGATIONS = [
     dict(name="status_and_constants", fn="status_and_constants", timeout=600, parts=["which == %d" % i for i in range(6)],
          functions=["SecsHandler.request_svs/request_sv/list_svs/request_ecs/list_ecs/set_ec", "equipment _on_s01f03/_on_s01f11/_on_s02f13/"
@@ -188,6 +243,33 @@ OBLIGATIONS = [
     dict(name="remote_command", fn="remote_command", timeout=300,
          functions=["GemHostHandler.send_remote_command", "RemoteControlCapability._on_s02f41", "S2F41/42 codecs"],
          bounds="one known command with a symbolic parameter value and one unknown command"),
+    dict(name="establish_schedules", fn="establish_schedules", timeout=1500,
+         parts={"quick": ["depth == 5 and not fast and host_active == %s and refuse_h == %d and refuse_e == %d and dsel == %d" % (b, i, i, d)
+                          for b in (True, False) for i in range(2) for d in range(2)]
+                + ["depth == 4 and fast == %s and host_active == %s and dsel == %d" % (f, b, d)
+                   for f in (True, False) for b in (True, False) for d in range(2)],
+                "thorough": ["depth == 5 and fast == %s and host_active == %s and refuse_h == %d and refuse_e == %d and dsel == %d"
+                             % (f, b, i, j, d) for f in (True, False) for b in (True, False) for i in range(2) for j in range(2)
+                             for d in range(2)]
+                + ["depth == 6 and not fast and host_active == %s and refuse_h == %d and refuse_e == %d and dsel == %d and c0 == %d"
+                   % (b, i, j, d, c) for b in (True, False) for i in range(2) for j in range(2) for d in range(2)
+                   for c in range(2)]},
+         functions=["GemHandler.enable/disable/_on_message_received/_on_communicating/_on_disconnected/_on_state_wait_cra/"
+                    "waitfor_communicating", "CommunicationStateMachine (all transitions, both timers)",
+                    "SecsHandler._handle_stream_function, built-in S1F1/S1F13 handlers of both roles", "S1F13/S1F14 codecs both ways",
+                    "GemHostHandler.are_you_there/subscribe_collection_event, equipment trigger_collection_events"],
+         bounds="real host and equipment handler on a scheduled link: the first `depth` events are chosen by the symbolic schedule among "
+                "the enabled ones {deliver head of either direction's FIFO, expire a pending WAIT_CRA / delay timer (<= 2, also ahead of "
+                "an undelivered message), enable / disable (<= 1) either side, link selected, link loss (<= 1)}, either connect role, the link coming up inside enable() or as a separate event (`fast`), "
+                "the first S1F13 refused or accepted by either side, symbolic system-byte counters, delay 10 s / 100 s (below / above T3) on either side; then a fair continuation "
+                "(FIFO delivery, timers in due order on a virtual clock) must reach COMMUNICATING on both sides within 40 events, no "
+                "user callback ran outside COMMUNICATING, S1F1/S1F2 works in both directions and one subscribed collection event "
+                "reaches the host exactly once",
+         outside="schedules with more than `depth` adversarial events (quick 4 / 5 with equal refusal flags, thorough 5 / 6), > 2 early timer expiries, > 1 link loss / "
+                 "disable; the HSMS Select exchange, T5-T8 and TCP segmentation below the GEM layer (C04/C05/C09); real threads: each "
+                 "event runs to completion (the handlers' own concurrency is C06/C18's subject)"),
 ]
-ASSUMPTIONS = ["both handlers constructed in COMMUNICATING state; the link is a synchronous loopback carrying encoded bytes "
-               "(no threads, no latency, no segmentation)", "sender thread of trigger_collection_events runs inline"]
+ASSUMPTIONS = ["data obligations: both handlers constructed in COMMUNICATING state; the link is a synchronous loopback carrying encoded "
+               "bytes (no threads, no latency, no segmentation)",
+               "establish_schedules: rigs/net.py - HSMS session abstracted to its 'communicating'/'disconnected' notifications and "
+               "send failure while the link is down; passive side selected first; one FIFO per direction; timers virtual", "sender thread of trigger_collection_events runs inline"]
